@@ -347,6 +347,7 @@ where
 
     fn clear(&mut self) {
         self.centroids.clear();
+        self.n_samples = 0;
         self.min = f64::INFINITY;
         self.max = f64::NEG_INFINITY;
         self.backlog.clear();
